@@ -71,14 +71,14 @@ func c10Plan(r *driver.Rand, mon string, par, n int) *driver.Plan {
 
 func c10Gen(r *driver.Rand, thorough bool) *driver.Plan {
 	mon := driver.Pick(r, c10Monoids...)
-	par := driver.Pick(r, 1, 2, 3, 4, 8, 9, 16)
+	par := genPar(r)
 	n := r.Intn(c10MaxN(mon) + 1)
 	if r.Chance(1, 3) {
 		n = r.Intn(par + 1) // shorter than the worker count, incl. empty
 	}
 	n = min(n, c10MaxN(mon))
 	p := c10Plan(r, mon, par, n)
-	p.Cap = driver.Pick(r, 0, 0, 1, 3)
+	p.Cap = genCap(r)
 	if r.Chance(1, 2) {
 		k := 1 + r.Intn(4)
 		for i := 0; i < k; i++ {
@@ -145,7 +145,7 @@ func c10Final(e *driver.Env) {
 	}
 	in := p.Inputs[0]
 	got := s.Out.Values()
-	want := foldModel(monoidOf(p.Monoid), in)
+	want := foldModel(p.Monoid, in)
 	if len(got) != 1 {
 		e.Failf("C10.a", "fork.Fold did not deliver exactly one value", "par=%d monoid=%s input=%v: delivered %v", p.Par, p.Monoid, in, got)
 		return
